@@ -8,6 +8,7 @@ import (
 	"github.com/corestario/kyber"
 	"github.com/corestario/kyber/encrypt/ecies"
 	dkgPedersen "github.com/corestario/kyber/share/dkg/pedersen"
+	"github.com/corestario/kyber/sign/schnorr"
 	"lukechampine.com/frand"
 
 	"github.com/lidofinance/dc4bc/client/types"
@@ -20,7 +21,7 @@ import (
 // C11: a dealer whose private deal contradicts its public commitments is caught.
 func init() { Register("C11", "exploration", checkC11) }
 
-var c11Kinds = []string{"deal-bitflip", "deal-truncated", "deal-10-bytes", "deal-to-wrong-key", "deal-from-other-polynomial", "deal-share-off-polynomial", "commitments-shortened", "commitments-lengthened", "response-turned-into-complaint"}
+var c11Kinds = []string{"deal-bitflip", "deal-truncated", "deal-10-bytes", "deal-to-wrong-key", "deal-from-other-polynomial", "deal-share-off-polynomial", "commitments-shortened", "commitments-lengthened", "response-turned-into-complaint", "response-turned-into-signed-complaint"}
 
 func checkC11(c *Ctx) {
 	c.Rule = "full key generations in which the operator driver rewrites one dealer's result between its machine and its node: deal ciphertext bit-flipped / truncated / cut to 10 bytes, deal re-encrypted to another participant's key, a self-consistent deal from a second kyber dealer with the dealer's long-term key but fresh coefficients, broadcast commitment list shortened / lengthened, a response turned into a complaint; every (dealer, victim) pair, all (n,t) with n<=3 (quick) / n<=4 (thorough), random delivery. Oracle at quiescence: the victim's machine answered the responses step with the error event, no node is signing-ready and every node is in a cancelled state, no machine stores a keyring for the round; on any signing-ready round the C02 invariant must hold. Honest control runs must reach signing-ready. distinct = distinct (n,t,kind,dealer,victim)"
@@ -37,7 +38,7 @@ func checkC11(c *Ctx) {
 					if V == D {
 						continue
 					}
-					if (k == "commitments-shortened" || k == "commitments-lengthened" || k == "response-turned-into-complaint") && V != (D+1)%nt.N {
+					if (k == "commitments-shortened" || k == "commitments-lengthened" || k == "response-turned-into-complaint" || k == "response-turned-into-signed-complaint") && V != (D+1)%nt.N {
 						continue // these deviations are broadcast: one run per dealer
 					}
 					jobs = append(jobs, job{nt.N, nt.T, D, V, k})
@@ -64,6 +65,7 @@ func runC11(c *Ctx, n, t, D, V int, kind string, seed uint64) {
 	var mu sync.Mutex
 	resultEvents := map[string]string{} // "<node>/<optype>" -> result event
 	applied := false
+	accused := -1
 	suite := oracle.NewSuite()
 	pubKeys := make([]kyber.Point, n)
 	for i, nd := range w.Nodes {
@@ -155,6 +157,24 @@ func runC11(c *Ctx, n, t, D, V int, kind string, seed uint64) {
 					applied = true
 				}
 			}
+		case string(req.Type) == OpResponses && kind == "response-turned-into-signed-complaint":
+			// a well-formed complaint: the deviating participant re-signs its response about another dealer
+			// with its own long-term key after flipping the verdict
+			var r requests.DKGProposalResponseConfirmationRequest
+			if len(res.ResultMsgs) == 1 && json.Unmarshal(res.ResultMsgs[0].Data, &r) == nil {
+				var rs []*dkgPedersen.Response
+				if json.Unmarshal(r.Response, &rs) == nil && len(rs) > 0 && rs[0] != nil && rs[0].Response != nil {
+					skD := oracle.LongTermKey(oracle.SeedFromMnemonic(w.Nodes[D].Mnemonic))
+					accused = int(rs[0].Index)
+					rs[0].Response.Status = false
+					if sig, err := schnorr.Sign(suite, skD, rs[0].Response.Hash(suite)); err == nil {
+						rs[0].Response.Signature = sig
+						r.Response, _ = json.Marshal(rs)
+						res.ResultMsgs[0].Data, _ = json.Marshal(r)
+						applied = true
+					}
+				}
+			}
 		case string(req.Type) == OpResponses && kind == "response-turned-into-complaint":
 			var r requests.DKGProposalResponseConfirmationRequest
 			if len(res.ResultMsgs) == 1 && json.Unmarshal(res.ResultMsgs[0].Data, &r) == nil {
@@ -215,6 +235,32 @@ func runC11(c *Ctx, n, t, D, V int, kind string, seed uint64) {
 		if s == StIdle {
 			ready++
 		}
+	}
+	if kind == "response-turned-into-signed-complaint" {
+		// a false complaint: every deal was consistent, so the statement's antecedent (a bad deal) is not met
+		// and the round may even complete (the accused dealer justifies itself). What must still hold: the
+		// nodes agree; a completed round satisfies the C02 invariant; in a cancelled round no bystander (neither
+		// the complainer nor the accused dealer) is left holding a key share.
+		if ready == n {
+			if judgeKeyMaterial(c, ce, "C11", wit) {
+				c.Add("false_complaint_rounds_completed_consistently", 1)
+			}
+			return
+		}
+		if ready > 0 {
+			c.Violate("C11/nodes-disagree-after-a-complaint", fmt.Sprint(states), wit)
+			return
+		}
+		for _, nd := range w.Nodes {
+			if nd.Idx == D || nd.Idx == accused {
+				continue
+			}
+			if kr, err := Keyring(nd, ce.Round); err == nil && kr != nil {
+				c.Violate("C11/keyring-stored-for-cancelled-round", fmt.Sprintf("bystander %s stores a key share for the round, which was cancelled after participant %d's signed complaint about dealer %d", nd.Name, D, accused), wit)
+			}
+		}
+		c.Add("false_complaint_rounds_cancelled", 1)
+		return
 	}
 	if ready > 0 {
 		// the converse half of the property: signing-ready only with consistent deals
